@@ -525,7 +525,7 @@ def cc1(F, R):
             R.bad("CC1", "CC1/Hex::concat/byte-source=%s" % cls, e.where(),
                   "cannot establish CC1: bytes appended to the result come from an unrecognised source",
                   {"source": show(src, e.body)})
-    R.floor("CC1", "append sites in concat()", n, 4, b.where())
+    R.floor("CC1", "append sites in concat()", n, 1, b.where())
 
 
 def cc2(F, R):
@@ -546,20 +546,46 @@ def cc2(F, R):
     for site, kind, s in b.sites():
         if kind == "stmt" and s["k"] == "assign" and s["rv"]["k"] == "aggregate" and s["rv"].get("adt") == "Hex":
             results.append((site, b.expr_rvalue(s["rv"], site)))
-    R.floor("CC2", "result constructions in concat()", len(results), 3, b.where())
+    # results built through the constructors: from_vec(v) / from_slice(v)
+    for site, t in b.calls():
+        if t["callee"].get("local") and t["callee"].get("name") in ("from_vec", "from_slice") and "Hex" in t["callee"].get("path", ""):
+            a = strip_load(deref_addr(b, b.call_args(t, site)[0]))
+            results.append((site, ("agg", "Hex", "Vector", (("0", a),))))
+    R.floor("CC2", "result constructions in concat()", len(results), 1, b.where())
+
+    def content_sides(vec, site):
+        """sequence of operand sides making up a byte vector value: initial content, then appends in dominance order"""
+        seq = []
+        v = strip_load(vec)
+        for _ in range(3):
+            if v[0] == "call" and v[1].split("::")[-1] in ("deref", "as_slice", "into_vec", "into_boxed_slice") and v[2]:
+                v = strip_load(v[2][0])
+        if v[0] == "call" and v[1].split("::")[-1] in ("clone", "to_vec", "to_owned") and v[2]:
+            seq.append(("init", side(v), None))
+        elif v[0] == "call" and v[1].split("::")[-1] in ("concat",) and v[2]:
+            arr = strip_load(v[2][0])
+            for _ in range(3):
+                if arr[0] == "cast":
+                    arr = strip_load(arr[2])
+            if arr[0] == "array":
+                for x in arr[1]:
+                    seq.append(("part", side(x), None))
+            else:
+                seq.append(("init", "unknown", None))
+        elif v[0] == "call" and v[1].split("::")[-1] in ("new", "with_capacity"):
+            pass
+        else:
+            seq.append(("init", "unknown:" + show(v, b)[:60], None))
+        apps = [a for a in raw if a.kind == "call" and a.name in ("extend_from_slice", "extend", "append", "push", "extend_from_within") and
+                a.body is b and strip_sites(strip_load(a.args[0])) == strip_sites(v) and b.dominates(a.site, site)]
+        apps.sort(key=lambda a: sum(1 for o in apps if b.dominates(o.site, a.site)))
+        for a in apps:
+            seq.append(("append", side(a.args[1]), a))
+        return seq
     for site, e in results:
         fs = dict(e[3])
         if e[2] == "Vector":
-            vec = strip_load(fs["0"])
-            # contents: initial value + appends to this vec in dominance order
-            seq = []
-            if vec[0] == "call" and vec[1].split("::")[-1] in ("clone", "to_vec", "to_owned"):
-                seq.append(("init", side(vec), None))
-            apps = [a for a in raw if a.kind == "call" and a.name in ("extend_from_slice", "extend", "append", "push") and
-                    a.body is b and strip_sites(strip_load(a.args[0])) == strip_sites(vec) and b.dominates(a.site, site)]
-            apps.sort(key=lambda a: sum(1 for o in apps if b.dominates(o.site, a.site)))
-            for a in apps:
-                seq.append(("append", side(a.args[1]), a))
+            seq = content_sides(fs["0"], site)
             sides = [x[1] for x in seq]
             if sides == ["left", "right"]:
                 R.ok("CC2", b.where(site), "heap result = left bytes then right bytes (%s)" % " → ".join(x[0] + ":" + x[1] for x in seq))
